@@ -405,6 +405,31 @@ def check_decimal(res, cls_name, shape, dec, ptxt):
         res.violation("C12|%s|str-roundtrip|decimal-coefficient" % cls_name, "%r prints as %r, which does not parse back to an equal %s (%r)" % (text, printed, cls_name, same), case, printed, text)
 
 
+def check_copy_overrides(res, cls_name):
+    """copy(param=...) / copy(name=...) replace exactly what is named, also by a falsy value (0, 0.0, '', None)"""
+    import chempy
+
+    cls = getattr(chempy, cls_name)
+    arrow = "->" if cls_name == "Reaction" else "="
+    r = cls.from_string("2 A + B %s C; 7.5; name='r1'" % arrow)
+    for field, val in (("param", 0), ("param", 0.0), ("param", None), ("param", 3.5), ("name", ""), ("name", None), ("name", "other")):
+        res.states += 1
+        res.transitions += 1
+        res.evaluations += 1
+        res.nontrivial += 1
+        case = dict(kind="copy-override", cls=cls_name, field=field, val=repr(val))
+        try:
+            cp = r.copy(**{field: val})
+            got = (cp.param, cp.name, dict(cp.reac), dict(cp.prod))
+            exp = (val if field == "param" else r.param, val if field == "name" else r.name, dict(r.reac), dict(r.prod))
+            ok = got == exp and (type(got[0]) is type(exp[0])) and (r.param, r.name) == (7.5, "r1")
+        except Exception as e:
+            got, exp, ok = "EXC %s" % type(e).__name__, None, False
+        res.outcomes["copy-override-ok" if ok else "copy-override-WRONG"] += 1
+        if not ok:
+            res.violation("C12|%s.copy|override-%s" % (cls_name, field), "%s.from_string(...; 7.5; name='r1').copy(%s=%r) carries (param, name, reac, prod) = %r, expected %r" % (cls_name, field, val, got, exp), case, repr(got), repr(exp))
+
+
 def check_context_history(res, cls_name):
     """a caller takes chempy's parsing context, redefines names in ITS copy and reads a line with it; a line read afterwards
     with the default context is read exactly as written (the caller's redefinitions stay the caller's)"""
@@ -490,6 +515,7 @@ def run_chunk(chunk, tier):
                     check_decimal(res, chunk[1], shape, dec, ptxt)
         check_dont_check_history(res, chunk[1])
         check_context_history(res, chunk[1])
+        check_copy_overrides(res, chunk[1])
         res.sample(dict(layer="DC", cls=chunk[1], coefficients=DEC, example="H2O2 -> 0.5 O2 + H2O; 4.2e-3"))
         return res
     if chunk[0] == "Y":
@@ -523,7 +549,11 @@ def run_chunk(chunk, tier):
 
 def replay(case):
     res = Result()
-    if case.get("kind") == "context-history":
+    if case.get("kind") == "copy-override":
+        sub = Result()
+        check_copy_overrides(sub, case["cls"])
+        res.violations = [v for v in sub.violations if v["case"] == case]
+    elif case.get("kind") == "context-history":
         check_context_history(res, case["cls"])
     elif case.get("kind") == "dont-check-history":
         check_dont_check_history(res, case["cls"])
